@@ -206,6 +206,159 @@ def _must_not_exist_vector(e):
         and v[0] >= 0 and v[1] >= 1 and v[2] == b""
 
 
+def _mne_vector(e, fn, folder):
+    """`e` denotes a (offset, length >= 1, b'') vector: literally, or as a constant of fn's module / class."""
+    if _must_not_exist_vector(e):
+        return True
+    try:
+        v = folder.fold(e, fn.module, fn.cls)
+    except Exception:
+        return False
+    if isinstance(v, list):
+        v = tuple(v)
+    return isinstance(v, tuple) and len(v) == 3 and isinstance(v[0], int) and isinstance(v[1], int) \
+        and not isinstance(v[0], bool) and v[0] >= 0 and v[1] >= 1 and v[2] == b""
+
+
+def _bind_call(g, call, skip_self):
+    """Parameter binding of `call` to helper g: {param name: caller expression | default expression | None}, plus
+    the set of parameters bound from the call site (not from a default).  None (whole result) if it cannot be decided
+    (star args, unknown keywords, vararg helper)."""
+    a = g.node.args
+    if a.vararg or a.kwarg or a.kwonlyargs or any(isinstance(x, ast.Starred) for x in call.args) \
+            or any(k.arg is None for k in call.keywords):
+        return None
+    names = [x.arg for x in list(getattr(a, "posonlyargs", [])) + list(a.args)]
+    if skip_self and names:
+        names = names[1:]
+    if len(call.args) > len(names):
+        return None
+    bound, given = {}, set()
+    for nm, e in zip(names, call.args):
+        bound[nm] = e
+        given.add(nm)
+    for k in call.keywords:
+        if k.arg not in names or k.arg in bound:
+            return None
+        bound[k.arg] = k.value
+        given.add(k.arg)
+    defaults = list(a.defaults)
+    dnames = names[len(names) - len(defaults):] if defaults else []
+    for nm, d in zip(dnames, defaults[-len(dnames):] if dnames else []):
+        bound.setdefault(nm, d)
+    if any(nm not in bound for nm in names):
+        return None
+    return bound, given
+
+
+def _helper_of(cg, fn, e):
+    """(helper FuncInfo, binding, given) when `e` is a call of exactly one package function / own method whose
+    parameters can be bound; else None."""
+    if not isinstance(e, ast.Call):
+        return None
+    try:
+        cands = cg.resolve(fn, e)
+    except Exception:
+        return None
+    if len(cands) != 1:
+        return None
+    g = cands[0]
+    if g.nested and any(not k.startswith("<lambda") for k in g.nested):
+        return None
+    is_method = g.cls is not None and not any(
+        isinstance(d, ast.Name) and d.id == "staticmethod" for d in g.node.decorator_list)
+    b = _bind_call(g, e, skip_self=is_method)
+    if b is None:
+        return None
+    return g, b[0], b[1]
+
+
+def _helper_list_returns(g):
+    """[(cfg node, element)] for the list displays helper g returns (an empty display contributes nothing);
+    AnalysisError when some return is not a list display."""
+    out = []
+    gnorm = FlowNorm(g)
+    rets = [n for n in g.cfg().nodes if is_return(n)]
+    if not rets:
+        raise AnalysisError("%s returns nothing" % short(g))
+    for n in rets:
+        v = gnorm.resolve(n, n.ast.value) if n.ast.value is not None else None
+        if not isinstance(v, ast.List):
+            raise AnalysisError("cannot read the test vectors %s returns (%s)" % (
+                short(g), src(g, n.ast.value) if n.ast.value is not None else "None"))
+        out += [(n, e) for e in v.elts]
+    return out
+
+
+def _helper_tw_entries(r, fn, fnorm, tnode, cs, g, bound, given, folder):
+    """The test-and-write dict is built by helper g (`tw = g(shnum, datavs, testvs)`): decide from g's body what is
+    filed under which key and whether g itself guarantees a non-empty test vector.  Returns True when g guarantees
+    it (the fallback to the must-not-exist vector is inside g), False when the caller still has to."""
+    gcfg = g.cfg()
+    gnorm = FlowNorm(g)
+    rets = [n for n in gcfg.nodes if is_return(n)]
+    if not rets:
+        raise AnchorVanished("%s returns nothing" % short(g))
+
+    def caller_norm(name):
+        e = bound.get(name)
+        return fnorm.norm(tnode, e) if e is not None else None
+    tv_locals = set()
+    for n in rets:
+        v = gnorm.resolve(n, n.ast.value) if n.ast.value is not None else None
+        if not isinstance(v, ast.Dict) or not v.keys or any(k is None for k in v.keys):
+            raise AnalysisError("%s: cannot read the test-and-write vectors %s returns (%s)" % (
+                short(fn), short(g), src(g, n.ast.value) if n.ast.value is not None else "None"))
+        for k, val in zip(v.keys, v.values):
+            kk = gnorm.resolve(n, k)
+            kn = caller_norm(kk.id) if isinstance(kk, ast.Name) and kk.id in given and kk.id not in all_defs(g) else None
+            r.require(kn == "self.shnum", fn, cs.loc, "vectors are filed under share %s (helper %s), not self.shnum" % (
+                src(g, k), short(g)))
+            vv = gnorm.resolve(n, val)
+            ok = isinstance(vv, ast.Tuple) and len(vv.elts) == 3 and isinstance(vv.elts[0], ast.Name) \
+                and vv.elts[0].id in bound
+            r.require(ok, fn, cs.loc, "the test vector sent to the server (helper %s) is %s, not self._testvs" % (
+                short(g), src(g, vv.elts[0]) if isinstance(vv, ast.Tuple) and vv.elts else src(g, vv)))
+            if ok:
+                tv_locals.add(vv.elts[0].id)
+    guaranteed = True
+    gdefs = all_defs(g)
+    for t in sorted(tv_locals):
+        r.require(t in given and caller_norm(t) == "self._testvs", fn, cs.loc,
+                  "the test vector handed to %s is %s, not self._testvs" % (
+                      short(g), src(fn, bound[t]) if t in given else "its default"))
+        # every rebinding of the helper's local: the must-not-exist fallback, or nothing
+
+        def fills_g(n, _t=t):
+            v = assign_value(n, _t)
+            if isinstance(v, ast.List) and len(v.elts) == 1 and _mne_vector(v.elts[0], g, folder):
+                return True
+            for c in calls_at(n, "append"):
+                if call_name(c) == _t + ".append" and len(c.args) == 1 and _mne_vector(c.args[0], g, folder):
+                    return True
+            return False
+        for n in gcfg.nodes:
+            bad = None
+            v = assign_value(n, t)
+            if v is not None and not fills_g(n) and not (isinstance(v, ast.List) and not v.elts):
+                bad = v
+            for c in calls_at(n, "append") + calls_at(n, "extend") + calls_at(n, "insert"):
+                if call_name(c).startswith(t + ".") and not fills_g(n):
+                    bad = c
+            if bad is not None:
+                r.violation(g, g.loc(bad), "fallback test vector %s does not mean 'share must not exist' "
+                            "(expected (offset, length >= 1, b''))" % src(g, bad))
+        for d in gdefs.get(t, []):
+            if d is None:
+                raise AnalysisError("%s rebinds %s opaquely" % (short(g), t))
+        truthy = _fact_gate(gnorm, lambda op, l, rr, _t=t: (op == "truth" and l == _t) or
+                            (op in ("<", "!=") and {l, rr} == {"0", "len(%s)" % _t}))
+        r.count(len(gcfg.nodes))
+        if find_path_avoiding(gcfg, is_return, gate_edge=truthy, gate_node=fills_g, kill=stores(t)):
+            guaranteed = False
+    return guaranteed
+
+
 def run(ctx: Context):
     idx = ctx.idx
     cg = get_callgraph(idx)
@@ -244,7 +397,19 @@ def run(ctx: Context):
                         for t in n.ast.targets:
                             if isinstance(t, ast.Subscript) and attr_path(t.value) == tw.id:
                                 entries.append((n, t.slice, n.ast.value))
-            r.require(bool(entries), fn, cs.loc, "cannot find what %s puts into the test-and-write vectors" % short(fn))
+            helper_guarantees = False
+            if not entries:
+                # the dict is assembled by a helper: follow it with the call's parameter binding
+                h = _helper_of(cg, fn, twr)
+                if h is not None:
+                    helper_guarantees = _helper_tw_entries(r, fn, fnorm, tnodes[0], cs, h[0], h[1], h[2], folder)
+                    entries = None
+                elif isinstance(twr, ast.Call):
+                    raise AnalysisError("%s: the test-and-write vectors come from %s, which cannot be followed" % (
+                        short(fn), src(fn, twr)))
+            if entries is not None:
+                r.require(bool(entries), fn, cs.loc, "cannot find what %s puts into the test-and-write vectors" % short(fn))
+            entries = entries or []
             for (n, k, v) in entries:
                 vv = fnorm.resolve(n, v)
                 ok = isinstance(vv, ast.Tuple) and len(vv.elts) == 3 and fnorm.norm(n, vv.elts[0]) == "self._testvs"
@@ -276,7 +441,8 @@ def run(ctx: Context):
             truthy_tv = _fact_gate(fnorm, lambda op, l, rr: (op == "truth" and l == "self._testvs") or
                                    (op in ("<", "!=") and {l, rr} == {"0", "len(self._testvs)"}))
             r.count(len(cfg.nodes))
-            for (n, w) in find_path_avoiding(cfg, tgt, gate_edge=truthy_tv, gate_node=fills, kill=stores("self._testvs")):
+            for (n, w) in ([] if helper_guarantees else
+                           find_path_avoiding(cfg, tgt, gate_edge=truthy_tv, gate_node=fills, kill=stores("self._testvs"))):
                 r.violation(fn, fn.loc(n.ast), "%s can send an empty test vector: the write would succeed whatever the "
                             "share holds (path: %s)" % (short(fn), w.brief()), w)
         if len(sites) < 2:
@@ -296,17 +462,38 @@ def run(ctx: Context):
             for n in cfg.nodes:
                 v = assign_value(n, "self._testvs")
                 if isinstance(v, ast.List):
-                    vecs += [(n, e) for e in v.elts]
+                    vecs += [(n, e, None) for e in v.elts]
                 elif v is not None:
-                    r.violation(fn, fn.loc(n.ast), "self._testvs is set to %s" % src(fn, v))
+                    h = _helper_of(cg, fn, v)
+                    if h is None:
+                        r.violation(fn, fn.loc(n.ast), "self._testvs is set to %s" % src(fn, v))
+                    else:
+                        vecs += [(n, e, h) for (_gn, e) in _helper_list_returns(h[0])]
                 for c in calls_at(n, "append"):
                     if call_name(c) == "self._testvs.append" and c.args:
-                        vecs.append((n, c.args[0]))
+                        vecs.append((n, c.args[0], None))
             if not vecs:
                 raise AnchorVanished("%s stores no test vector" % short(fn))
             cs_names = set()
-            for (n, e) in vecs:
+            for (n, e, h) in vecs:
                 e2 = e.args[0] if isinstance(e, ast.Call) and call_name(e) == "tuple" and e.args else e
+                if h is not None:
+                    # the vector is built by helper h[0] from one of its parameters: read it in the caller's terms
+                    g, bound, given = h
+                    ok = isinstance(e2, (ast.Tuple, ast.List)) and len(e2.elts) == 3 \
+                        and isinstance(e2.elts[0], ast.Constant) and e2.elts[0].value == 0 \
+                        and norm_plain(e2.elts[1]) == "len(%s)" % norm_plain(e2.elts[2])
+                    r.require(ok, g, g.loc(e), "test vector %s does not compare the whole checkstring at offset 0 "
+                              "(expected (0, len(cs), cs))" % src(g, e))
+                    if ok:
+                        p3 = e2.elts[2]
+                        a3 = bound.get(p3.id) if isinstance(p3, ast.Name) and p3.id in given and p3.id not in all_defs(g) else None
+                        if isinstance(a3, ast.Name):
+                            cs_names.add(a3.id)
+                        else:
+                            r.require(False, fn, fn.loc(n.ast), "checkstring expression %s (helper %s) is not a plain local "
+                                      "of %s" % (src(g, p3), short(g), short(fn)))
+                    continue
                 ok = isinstance(e2, (ast.Tuple, ast.List)) and len(e2.elts) == 3 \
                     and isinstance(e2.elts[0], ast.Constant) and e2.elts[0].value == 0 \
                     and norm_plain(e2.elts[1]) == "len(%s)" % norm_plain(e2.elts[2])
@@ -361,7 +548,7 @@ def run(ctx: Context):
                   expected=6) as r:
         ga = idx.func(PUB + "._got_write_answer")
         _not_wrote_surprised(r, ga)
-        _mismatch_surprised(r, ga)
+        _mismatch_surprised(r, ga, cg)
         _surprised_discipline(r, idx, cg, pub)
 
     # -- 5. the answer reaches _got_write_answer ------------------------------
@@ -450,7 +637,7 @@ def run(ctx: Context):
     with ctx.rule("C12.15", "R1", "set_checkstring stores (0, len(cs), cs) only where cs is known to be non-empty "
                   "((0, 0, b'') is satisfied by any share contents)", expected=2) as r:
         for q in (SDMFW, MDMFW):
-            _nonempty_vector(r, idx.func(q + ".set_checkstring"))
+            _nonempty_vector(r, idx.func(q + ".set_checkstring"), cg)
 
     # -- 16. the protocol adapters forward the test vectors as given --------------------
     with ctx.rule("C12.16", "R5", "every IStorageServer adapter (Foolscap, HTTP) sends, for every share number of tw_vectors and "
@@ -606,11 +793,51 @@ def _not_wrote_surprised(r, ga):
             break
 
 
-def _mismatch_surprised(r, ga):
-    """A surprise share whose checkstring != self._checkstring always leads to self.surprised = True."""
-    cfg = ga.cfg()
-    fnorm = FlowNorm(ga)
+def _is_cs_mismatch(e):
+    """`X != self._checkstring` (either side; `not X == ..` too)."""
+    if isinstance(e, ast.UnaryOp) and isinstance(e.op, ast.Not):
+        c = e.operand
+        return isinstance(c, ast.Compare) and len(c.ops) == 1 and isinstance(c.ops[0], ast.Eq) \
+            and "self._checkstring" in (attr_path(c.left), attr_path(c.comparators[0]))
+    return isinstance(e, ast.Compare) and len(e.ops) == 1 and isinstance(e.ops[0], ast.NotEq) \
+        and "self._checkstring" in (attr_path(e.left), attr_path(e.comparators[0]))
+
+
+def _mismatch_indicator(e):
+    """`any(X != self._checkstring for .. in ..)`: true exactly when some examined checkstring differs from ours."""
+    return isinstance(e, ast.Call) and call_name(e) == "any" and len(e.args) == 1 and not e.keywords \
+        and isinstance(e.args[0], (ast.GeneratorExp, ast.ListComp)) and _is_cs_mismatch(e.args[0].elt)
+
+
+def _mismatch_monitor(fn, cg, helper_mode, depth=0):
+    """Product of fn's CFG with (a differing checkstring was observed, locals known True, the surprise is recorded).
+    'recorded' is `self.surprised = True` in _got_write_answer and, for a helper that reports to its caller
+    (helper_mode), returning True / the mismatch indicator itself.  Calls of own helpers that report a mismatch
+    through their result are followed (`if self._scan(..): self.surprised = True`).
+    -> (seen, cfg, visited, parent)"""
+    cfg = fn.cfg()
+    fnorm = FlowNorm(fn)
     seen = [False]
+    memo = {}
+
+    def reporting_call(n, e):
+        """e (resolved) is the mismatch indicator, or a call of a helper whose result is truthy whenever it saw one."""
+        try:
+            e = fnorm.resolve(n, e)
+        except Exception:
+            pass
+        if _mismatch_indicator(e):
+            return True
+        if not isinstance(e, ast.Call) or depth >= 2 or cg is None:
+            return False
+        if id(e) not in memo:
+            memo[id(e)] = False
+            h = _helper_of(cg, fn, e)
+            if h is not None and h[0] is not fn and h[0].cls is not None and h[0].cls is fn.cls:
+                g_seen, gcfg, gvis, _gpar = _mismatch_monitor(h[0], cg, True, depth + 1)
+                memo[id(e)] = g_seen and not any(gcfg.nodes[nid].kind == "exit" and st[0] and not st[2]
+                                                 for (nid, st) in gvis)
+        return memo[id(e)]
 
     def transfer(n, lab, nxt, st):
         mism, true_locals, sset = st
@@ -618,6 +845,10 @@ def _mismatch_surprised(r, ga):
         if f and f[0] == "!=" and "self._checkstring" in (f[1], f[2]):
             seen[0] = True
             mism = True
+        if n.kind == "test" and isinstance(lab, tuple) and reporting_call(n, n.ast):
+            seen[0] = True
+            if lab[0] == "T":
+                mism = True
         # a local known to be True decides a plain `if local:` test
         if n.kind == "test" and isinstance(n.ast, ast.Name) and n.ast.id in true_locals and isinstance(lab, tuple) \
                 and lab[0] == "F":
@@ -633,11 +864,31 @@ def _mismatch_surprised(r, ga):
             if "self.surprised" in node_stores(n):
                 v = assign_value(n, "self.surprised")
                 sset = isinstance(v, ast.Constant) and v.value is True
+                if v is not None and not sset and reporting_call(n, v):
+                    # self.surprised = <mismatch indicator>: True whenever a differing checkstring was seen
+                    # (that such a store can also *clear* the flag is _surprised_discipline's business)
+                    seen[0] = True
+                    sset = True
+            if helper_mode and is_return(n) and n.ast.value is not None:
+                v = n.ast.value
+                if (isinstance(v, ast.Constant) and v.value is True) or (isinstance(v, ast.Name) and v.id in true_locals):
+                    sset = True
+                elif reporting_call(n, v):
+                    seen[0] = True
+                    sset = True
+                else:
+                    sset = False
         return (mism, true_locals, sset)
     visited, parent = explore(cfg, (False, frozenset(), False), transfer)
+    return seen[0], cfg, visited, parent
+
+
+def _mismatch_surprised(r, ga, cg=None):
+    """A surprise share whose checkstring != self._checkstring always leads to self.surprised = True."""
+    seen, cfg, visited, parent = _mismatch_monitor(ga, cg, False)
     r.count(len(visited))
     r.site(ga, None, "different checkstring => surprised")
-    if not seen[0]:
+    if not seen:
         r.violation(ga, ga.loc(), "_got_write_answer no longer compares a surprise share's whole checkstring with "
                     "self._checkstring: shares of another version written behind our back go unnoticed")
         return
@@ -1181,36 +1432,89 @@ def _unwrap(e):
     return e
 
 
-def _surprise_set(r, idx, ga):
-    cfg = ga.cfg()
-    fnorm = FlowNorm(ga)
-    ps = first_positional_params(ga)
+def _surprise_scan_helper(idx, ga, fnorm, ans, wr):
+    """The surprise-share scan moved into an own method: (helper, its read_data parameter, its writer parameter) for
+    the one call `self.h(.., writer, answer[1], ..)` of a method that compares something with self._checkstring."""
+    cg = get_callgraph(idx)
+    out = []
+    for n in ga.cfg().nodes:
+        for c in node_calls(n):
+            h = _helper_of(cg, ga, c)
+            if h is None or h[0] is ga or h[0].cls is None or h[0].cls is not ga.cls:
+                continue
+            g, bound, given = h
+            if not any(isinstance(x, ast.Attribute) and attr_path(x) == "self._checkstring" for x in func_own_nodes(g)):
+                continue
+            gdefs = all_defs(g)
+            p_rd = [p for p in given if p not in gdefs and fnorm.norm(n, bound[p]) == ans + "[1]"]
+            p_wr = [p for p in given if p not in gdefs and fnorm.norm(n, bound[p]) == wr]
+            if len(p_rd) != 1 or len(p_wr) != 1:
+                raise AnalysisError("%s compares with self._checkstring but is not handed the writer and the server's "
+                                    "read data (%s[1]) as plain arguments" % (short(g), ans))
+            out.append((g, p_rd[0], p_wr[0]))
+    return out
+
+
+def _surprise_set(r, idx, ga0):
+    ps = first_positional_params(ga0)
     if len(ps) < 2:
         raise AnchorVanished("_got_write_answer(answer, writer, ..) signature changed")
     ans, wr = ps[0], ps[1]
+    ga, rdx = ga0, ans + "[1]"
+    cfg = ga.cfg()
+    fnorm = FlowNorm(ga)
+
+    def comparisons(fn, cfg, fnorm):
+        cmps = []
+        for n in cfg.nodes:
+            for (d, lab) in cfg.succ[n.id]:
+                f = fnorm.edge_fact(n, lab)
+                if f and f[0] == "!=" and "self._checkstring" in (f[1], f[2]):
+                    cmps.append((n, f[2] if f[1] == "self._checkstring" else f[1], None))
+            if n.kind in ("stmt", "test") and n.ast is not None:
+                for e in own_nodes(n.ast):
+                    if _mismatch_indicator(e):
+                        comp = e.args[0]
+                        c = comp.elt.operand if isinstance(comp.elt, ast.UnaryOp) else comp.elt
+                        other = c.comparators[0] if attr_path(c.left) == "self._checkstring" else c.left
+                        cmps.append((n, fnorm.norm(n, other), comp))
+        return cmps
+    cmps = comparisons(ga, cfg, fnorm)
+    if not cmps:
+        hs = _surprise_scan_helper(idx, ga0, fnorm, ans, wr)
+        if len(hs) == 1:
+            ga, rdx, wr = hs[0]
+            cfg = ga.cfg()
+            fnorm = FlowNorm(ga)
+            cmps = comparisons(ga, cfg, fnorm)
+    if not cmps:
+        raise AnchorVanished("_got_write_answer no longer compares anything with self._checkstring")
     here = wr + ".server"
     mine = wr + ".shnum"
     rd = C.reaching_defs(cfg)
-    cmps = []
-    for n in cfg.nodes:
-        for (d, lab) in cfg.succ[n.id]:
-            f = fnorm.edge_fact(n, lab)
-            if f and f[0] == "!=" and "self._checkstring" in (f[1], f[2]):
-                cmps.append((n, f[2] if f[1] == "self._checkstring" else f[1]))
-    if not cmps:
-        raise AnchorVanished("_got_write_answer no longer compares anything with self._checkstring")
-    pat = re.compile(r"^" + re.escape(ans) + r"\[1\]\[(\w+)\]\[(\d+)\]$")
+    pat = re.compile(r"^" + re.escape(rdx) + r"\[(\w+)\]\[(\d+)\]$")
     indices, sets_seen = set(), set()
-    for (n, other) in cmps:
+    for (n, other, comp) in cmps:
         r.site(ga, n.ast, "compared checkstring")
         m = pat.match(other)
         if not m:
             r.violation(ga, ga.loc(n.ast), "self._checkstring is compared with %s, not with what the server read from the "
-                        "surprise share (%s[1][<shnum>][<i>]): a share of another version is not recognised (or the "
-                        "comparison raises and the answer is dropped)" % (other, ans))
+                        "surprise share (%s[<shnum>][<i>]): a share of another version is not recognised (or the "
+                        "comparison raises and the answer is dropped)" % (other, rdx))
             continue
         lv, i = m.group(1), int(m.group(2))
         indices.add(i)
+        if comp is not None:
+            # any(rd[shnum][i] != self._checkstring for shnum in S): every member of S is compared
+            gens = comp.generators
+            it = _unwrap(gens[0].iter) if len(gens) == 1 and not gens[0].ifs and isinstance(gens[0].target, ast.Name) \
+                and gens[0].target.id == lv else None
+            if not isinstance(it, ast.Name):
+                r.violation(ga, ga.loc(n.ast), "the share number %s whose checkstring is compared is not the (unfiltered) loop "
+                            "variable over the surprise set" % lv)
+                continue
+            sets_seen.add(it.id)
+            continue
         defs = rd.get(n.id, {}).get(lv, frozenset())
         r.require(bool(defs), ga, ga.loc(n.ast), "share number %s of the comparison is never bound" % lv)
         for did in sorted(defs):
@@ -1223,7 +1527,7 @@ def _surprise_set(r, idx, ga):
             sets_seen.add(it.id)
     for S in sorted(sets_seen):
         r.site(ga, None, "surprise set %s" % S)
-        _surprise_set_defs(r, ga, cfg, fnorm, S, ans, here, mine)
+        _surprise_set_defs(r, ga, cfg, fnorm, S, rdx, here, mine)
     if not sets_seen and not any(True for _ in r.violations):
         raise AnchorVanished("surprise set of _got_write_answer not found")
     # both proxies ask the server to read index i
@@ -1254,9 +1558,9 @@ def _surprise_set(r, idx, ga):
             raise AnchorVanished("expected the SDMF and MDMF write proxies to call %s" % REMOTE)
 
 
-def _surprise_set_defs(r, ga, cfg, fnorm, S, ans, here, mine):
-    bases = {norm_src(t % ans) for t in ("set(%s[1].keys())", "set(%s[1])", "%s[1].keys()", "frozenset(%s[1].keys())",
-                                         "frozenset(%s[1])", "set(list(%s[1].keys()))", "list(%s[1].keys())", "list(%s[1])")}
+def _surprise_set_defs(r, ga, cfg, fnorm, S, rdx, here, mine):
+    bases = {norm_src(t % rdx) for t in ("set(%s.keys())", "set(%s)", "%s.keys()", "frozenset(%s.keys())",
+                                         "frozenset(%s)", "set(list(%s.keys()))", "list(%s.keys())", "list(%s)")}
 
     def split(v):
         if isinstance(v, ast.BinOp) and isinstance(v.op, ast.Sub):
@@ -1346,7 +1650,7 @@ def _surprise_set_defs(r, ga, cfg, fnorm, S, ans, here, mine):
                 base, rems = split(a.value)
                 if not (isinstance(base, ast.Name) and base.id == S):
                     r.require(fnorm.norm(n, base) in bases, ga, ga.loc(a), "the surprise set starts from %s, not from every "
-                              "share in the server's answer (%s[1])" % (src(ga, base), ans))
+                              "share in the server's answer (%s)" % (src(ga, base), rdx))
                 for e in rems:
                     removal(n, e, a)
             elif isinstance(a, ast.AugAssign) and isinstance(a.op, ast.Sub):
@@ -1581,7 +1885,54 @@ def _modify_chain_returns(r, idx):
         r.violation(rt, rt.loc(again[0].call), "the next attempt is chained on an anonymous Deferred")
 
 
-def _nonempty_vector(r, fn):
+def _nonempty_facts(names):
+    empty = norm_src("b''")
+    lens = {"len(%s)" % x for x in names}
+
+    def nonempty(op, l, rr):
+        if op == "truth" and l in names:
+            return True
+        if op == "!=" and ((l == empty and rr in names) or (rr == empty and l in names)):
+            return True
+        return (op in ("<", "!=") and l == "0" and rr in lens) or (op == "!=" and rr == "0" and l in lens) \
+            or (op == "<=" and l == "1" and rr in lens)
+    return nonempty
+
+
+def _nonempty_vector_helper(r, fn, cfg, fnorm, n, h):
+    """self._testvs = g(cs): every (0, len(p), p) vector g returns is built from a parameter known to be non-empty on
+    that path of g, or (failing that) from an argument the caller knows to be non-empty."""
+    g, bound, given = h
+    gcfg, gnorm, gdefs = g.cfg(), FlowNorm(g), all_defs(g)
+    for (gn, e) in _helper_list_returns(g):
+        e2 = e.args[0] if isinstance(e, ast.Call) and call_name(e) == "tuple" and e.args else e
+        if not (isinstance(e2, (ast.Tuple, ast.List)) and len(e2.elts) == 3 and isinstance(e2.elts[2], ast.Name)
+                and norm_plain(e2.elts[1]) == "len(%s)" % e2.elts[2].id):
+            continue
+        p = e2.elts[2].id
+        names = {p} | {d.id for d in gdefs.get(p, []) if isinstance(d, ast.Name)}
+        r.count(len(gcfg.nodes))
+        found = find_path_avoiding(gcfg, lambda x, _n=gn: x is _n, gate_edge=_fact_gate(gnorm, _nonempty_facts(names)),
+                                   kill=stores_any(names))
+        if not found:
+            continue
+        a = bound.get(p) if p in given and p not in gdefs else None
+        if isinstance(a, ast.Name):
+            cnames = {a.id} | {d.id for d in all_defs(fn).get(a.id, []) if isinstance(d, ast.Name)}
+
+            def packed(m, _cs=a.id):
+                pv = assign_value(m, _cs)
+                return isinstance(pv, ast.Call) and call_name(pv) == "struct.pack" and len(pv.args) >= 2
+            if not find_path_avoiding(cfg, lambda x, _n=n: x is _n, gate_edge=_fact_gate(fnorm, _nonempty_facts(cnames)),
+                                      gate_node=packed, kill=stores_any(cnames)):
+                continue
+        (t, w) = found[0]
+        r.violation(g, g.loc(e), "%s (called by %s) can return the test vector (0, len(%s), %s) for an empty %s: (0, 0, b'') is "
+                    "satisfied by any share contents, so the write overwrites whatever another writer put there "
+                    "(path: %s)" % (short(g), short(fn), p, p, p, w.brief()), w)
+
+
+def _nonempty_vector(r, fn, cg=None):
     cfg = fn.cfg()
     fnorm = FlowNorm(fn)
     r.site(fn, None, "vector length >= 1")
@@ -1591,6 +1942,10 @@ def _nonempty_vector(r, fn):
         v = assign_value(n, "self._testvs")
         if isinstance(v, ast.List):
             vecs += list(v.elts)
+        elif v is not None and cg is not None:
+            h = _helper_of(cg, fn, v)
+            if h is not None:
+                _nonempty_vector_helper(r, fn, cfg, fnorm, n, h)
         for c in calls_at(n, "append"):
             if call_name(c) == "self._testvs.append" and c.args:
                 vecs.append(c.args[0])
